@@ -346,12 +346,14 @@ func runShard(o DriveOpts, p *Property, bin, work string, shard, n, timeoutS int
 		ef.Close()
 		res.raceBlks = append(res.raceBlks, parseRaceLogs(racePrefix)...)
 
-		sum, viols, inc, notes, lastBegun, lastEnded := readStream(out)
+		sums, finished, viols, inc, notes, lastBegun, lastEnded := readStream(out)
 		res.viols = append(res.viols, viols...)
 		res.inconcl = append(res.inconcl, inc...)
 		res.notes = append(res.notes, notes...)
-		if sum != nil {
+		for _, sum := range sums {
 			mergeSummary(res.sum, sum, hashset)
+		}
+		if finished {
 			return res
 		}
 		// no summary: crash or timeout
@@ -403,7 +405,7 @@ func mergeSummary(dst, src *Summary, hashset map[string]struct{}) {
 	}
 }
 
-func readStream(path string) (sum *Summary, viols []Violation, inc, notes []string, lastBegun, lastEnded int) {
+func readStream(path string) (sums []*Summary, done bool, viols []Violation, inc, notes []string, lastBegun, lastEnded int) {
 	lastBegun, lastEnded = -1, -1
 	f, err := os.Open(path)
 	if err != nil {
@@ -430,8 +432,15 @@ func readStream(path string) (sum *Summary, viols []Violation, inc, notes []stri
 			inc = append(inc, fmt.Sprintf("case %d: %s", r.I, r.Msg))
 		case "N":
 			notes = append(notes, r.Msg)
+		case "P":
+			if r.Sum != nil {
+				sums = append(sums, r.Sum)
+			}
 		case "S":
-			sum = r.Sum
+			if r.Sum != nil {
+				sums = append(sums, r.Sum)
+			}
+			done = true
 		}
 	}
 	return
